@@ -72,7 +72,8 @@ func base62String(id []byte) string {
 func parseBase62(s string, into []byte) error {
 	var i big.Int
 	_, ok := i.SetString(s, 62)
-	if !ok {
+	if !ok || i.Sign() < 0 {
+		// big.Int accepts a sign; a negative value is not an identifier
 		return fmt.Errorf("cannot parse base62: %q", s)
 	}
 	valBytes := i.Bytes()
